@@ -155,6 +155,26 @@ def judge_lattice(b, job, aux, r, worst):
   return out
 
 
+def ideal_result(b, job, aux):
+  """What an exact implementation would return for a sketched behaviour, built from the SPEC's expectations
+  (used by the binding self-tests, so that they do not depend on the code under test)."""
+  c = b["cfg"]
+  d, lr = c["d"], aux["lr"]
+  Q = aux["Q"]
+  w = np.zeros(d)
+  steps = []
+  for s, st in enumerate(b["steps"]):
+    term, exp = st["term"], st["exp"]
+    g = np.asarray(job["grads"][s])
+    w = w - (lr if term["lr"] == "lr" else 1.0) * fn_eval(term, term["num"] / term["den"]) * g
+    order = sorted(range(d), key=lambda i: -exp["l"][i])[:c["k"]]
+    P = np.array([Q[:, i] for i in order])
+    e = np.sqrt(np.array([exp["l"][i] for i in order], float))
+    steps.append({"w": w.tolist(), "wdtype": "float64", "t": float(exp["tc"]),
+                  "alpha": exp["alpha2"] / (2.0 * c["dD"]), "P": P.tolist(), "e": e.tolist(), "diag_h": None})
+  return {"error": None, "x64": True, "steps": steps}
+
+
 def dense_jobs(ck, beh, n_per):
   """OGD (value-free) and ADA (value-free part: the set `sq` of absorbed squares) on dense random sequences."""
   jobs = []
@@ -358,7 +378,7 @@ def run(ck):
     raise core.MachineryError(f"vacuous replay: {stats}")
   k = next(i for i, b in enumerate(lattice) if b["cfg"]["alg"] == "S_ADA" and b["cfg"]["dN"] > 0
            and b["steps"][-1]["exp"]["esc"] > 0 and b["steps"][-1]["in"]["a"] > 0)
-  ck.sample({"spec_behaviour": lattice[k], "real_final_state": res[k]["steps"][-1]})
+  ck.sample({"spec_behaviour": lattice[k], "real_final_state": (res[k]["steps"] or [None])[-1]})
   # dense random sequences for the value-free parts
   dj = dense_jobs(ck, allb, 8 if quick else 40)
   dres = core.run_workers(WORKER, [j for j, _ in dj], x64=True, work=ck.work)
@@ -378,15 +398,20 @@ def run(ck):
     if kname != "alpha=0|iterate_mismatch":
       ck.calib(kname, vworst, TOL_ADAFD if kname.endswith("adafd") else TOL)
   ck.cov["alpha_zero_iterate_deviation_worst"] = worst.get("alpha=0|iterate_mismatch", 0.0)
-  # binding self-tests (R): corrupt one expected value / one observed value of a behaviour that passed
-  okk = next(i for i, (b, j, a, r) in enumerate(zip(lattice, jobs, auxs, res))
-             if b["cfg"]["alg"] == "S_ADA" and not judge_lattice(b, j, a, r, {}) and b["steps"][-1]["exp"]["esc"] > 0
-             and b["steps"][0]["in"]["a"] > 0 and b["cfg"]["dN"] > 0)
-  b0, j0, a0, r0 = lattice[okk], jobs[okk], auxs[okk], res[okk]
+  # binding self-tests (R): an ideal result built from the spec's own expectations must pass; one corrupted
+  # expected value / one corrupted observed value must be flagged (independent of the code under test)
+  okk = next(i for i, b in enumerate(lattice)
+             if b["cfg"]["alg"] == "S_ADA" and b["steps"][-1]["exp"]["esc"] > 0 and b["cfg"]["dN"] > 0
+             and all(st["in"]["a"] > 0 for st in b["steps"]) and b["steps"][0]["exp"]["lossless"])
+  b0, j0, a0 = lattice[okk], jobs[okk], auxs[okk]
+  r0 = ideal_result(b0, j0, a0)
   b1 = copy.deepcopy(b0); b1["steps"][0]["term"]["num"] += 1
   b2 = copy.deepcopy(b0); b2["steps"][-1]["exp"]["alpha2"] += 1
   b3 = copy.deepcopy(b0); b3["steps"][-1]["exp"]["l"] = list(reversed(b3["steps"][-1]["exp"]["l"]))
+  b5 = copy.deepcopy(b0); b5["steps"][0]["exp"]["cov"] = [x + 1 for x in b5["steps"][0]["exp"]["cov"]]
   r4 = copy.deepcopy(r0); r4["steps"][-1]["e"][-1] = 1e-12
+  ck.selftest("R: an exact implementation (built from the spec's expectations) is accepted",
+              not judge_lattice(b0, j0, a0, r0, {}))
   ck.selftest("R: preconditioner argument of one term off by 1/den is flagged",
               any(c == "iterate_mismatch" for c, _ in judge_lattice(b1, j0, a0, r0, {})))
   ck.selftest("R: expected alpha off by 1/(2 dD) is flagged",
@@ -396,6 +421,8 @@ def run(ck):
                 any(c == "sketch_mismatch" for c, _ in judge_lattice(b3, j0, a0, r0, {})))
   ck.selftest("R: a last sketch row of 1e-12 instead of 0 is flagged",
               any(c == "last_row_not_zero" for c, _ in judge_lattice(b0, j0, a0, r4, {})))
+  ck.selftest("R: a wrong covariance in the full-matrix AdaGrad reference is flagged",
+              any(c == "not_full_matrix_adagrad" for c, _ in judge_lattice(b5, j0, a0, r0, {})))
   # ---- V: dense histories ------------------------------------------------------------------------------
   vj = v_jobs(ck, 240 if quick else 3000)
   vres = core.run_workers(WORKER, [{k: v for k, v in j.items() if k != "kind"} for j in vj], x64=True, work=ck.work)
@@ -422,21 +449,38 @@ def run(ck):
   ck.calib("bracket_upper_margin_violation", wh, VTOL)
   ck.calib("alpha_law_residual", wa, VTOL)
   ck.cov["dense_lossless_steps"] = nloss
-  if nloss == 0:
+  if nloss == 0 and not ck.violations:
     raise core.MachineryError("vacuous V leg: no lossless step in the dense histories")
   ck.sample({"recorded_trace": {"cfg": traces[0]["cfg"], "events": traces[0]["events"][:3]}})
-  acc = [{"cfg": t["cfg"], "events": t["events"]} for t, v in zip(traces, verdicts) if v["accepted"]]
-  t0 = copy.deepcopy(acc[0]); t0["events"][-1]["lastzero"] = False
-  t1 = copy.deepcopy(next(t for t in acc if any(e["escfp"] > 0 for e in t["events"])))
-  t1["events"][-1]["hi"] = -int(1e-3 * FP)
-  t2 = copy.deepcopy(next(t for t in acc if t["cfg"]["alg"] == "S_ADA")); t2["events"][1]["aerr"] = int(1e-3 * FP)
-  t3 = copy.deepcopy(acc[1]); t3["events"][1]["tc"] += 1
+  # binding self-tests (V): a synthetic well-formed trace is accepted, each corrupted field is rejected
+  def ev(tc, **kw):
+    e = {"err": "none", "tc": tc, "lastzero": True, "finite": True, "lo": -1, "hi": -1, "aerr": 1, "rank": 1,
+         "lossless": False, "escfp": 5 * FP // 10}
+    e.update(kw)
+    return e
+  base = {"cfg": {"alg": "S_ADA", "k": 3, "fp": FP, "tolfp": int(VTOL * FP), "f2": 2},
+          "events": [ev(1, lossless=True, escfp=0), ev(2), ev(3, rank=2)]}
+  def mod(i, **kw):
+    t = copy.deepcopy(base)
+    t["events"][i].update(kw)
+    return t
+  synth = [base, mod(2, lastzero=False), mod(2, hi=-int(1e-3 * FP)), mod(1, lo=-int(1e-3 * FP)),
+           mod(1, aerr=int(1e-3 * FP)), mod(1, tc=3), mod(0, escfp=int(1e-2 * FP)), mod(2, rank=3)]
+  synth[0] = copy.deepcopy(base)
+  wrongf = copy.deepcopy(base); wrongf["cfg"]["f2"] = 1
+  synth.append(wrongf)
   sub = core.Check(ck.pid, ck.level, ck.tier, ck.seed); sub.work = ck.work
-  vs = sub.validate("OCO_Trace", "OCO_Trace", [t0, t1, t2, t3])
-  ck.selftest("V: a non-zero last sketch row is rejected", vs[0]["verdict"] == "last_row_not_zero")
-  ck.selftest("V: covariance above sketch + escaped mass by 1e-3 is rejected", vs[1]["verdict"] == "bracket_upper")
-  ck.selftest("V: alpha-law residual of 1e-3 is rejected", vs[2]["verdict"] == "alpha_law")
-  ck.selftest("V: step counter advancing by two is rejected", vs[3]["verdict"] == "step_count")
+  vs = sub.validate("OCO_Trace", "OCO_Trace", synth)
+  ck.selftest("V: a well-formed synthetic trace is accepted", vs[0]["accepted"])
+  ck.selftest("V: a non-zero last sketch row is rejected", vs[1]["verdict"] == "last_row_not_zero")
+  ck.selftest("V: covariance above sketch + escaped mass by 1e-3 is rejected", vs[2]["verdict"] == "bracket_upper")
+  ck.selftest("V: sketch above covariance by 1e-3 is rejected", vs[3]["verdict"] == "bracket_lower")
+  ck.selftest("V: alpha-law residual of 1e-3 is rejected", vs[4]["verdict"] == "alpha_law")
+  ck.selftest("V: step counter advancing by two is rejected", vs[5]["verdict"] == "step_count")
+  ck.selftest("V: escaped mass on a lossless history is rejected", vs[6]["verdict"] == "lossless_but_escaped")
+  ck.selftest("V: sketch rank = sketch size is rejected", vs[7]["verdict"] == "rank_bound")
+  ck.selftest("V: a trace claiming another alpha factor than the spec's is rejected",
+              vs[8]["verdict"] == "alpha_factor_of_trace_disagrees_with_spec")
   ck.assume("ADA_FD and FD_SON are exercised with delta > 0 only: they keep alpha = delta for ever; with delta = 0 "
             "ADA_FD's d = e/(alpha+e) is 0/0 in the always-zero last sketch row and the iterate is NaN from the "
             "first step (observed), an input outside the algorithm's definition")
